@@ -1,1 +1,50 @@
-Definition placeholder_c07 := 0.
+(* C07 -- Serialize then parse is the identity on conforming documents (PARTIAL: what each stage may change). *)
+From Coq Require Import NArith List Bool Permutation.
+From Verif Require Import Sx Str Tok.
+From Verif.Gen Require Import Serializer.
+From Verif.Model Require Import CharRef TokBase Ser C13 C18 C07.
+From Verif.Spec Require Import TokSpec.
+From Verif.Proofs Require Import C13 C18 C07 C08.
+Import ListNotations.
+Local Open Scope N_scope.
+
+(* the pipeline model is the token loop applied to the filtered stream, and serialize() stacks the filters in
+   this order (translator fact, re-derived from the source on every run): attribute sorting before
+   sanitizing before optional-tag omission *)
+Theorem c07_pipeline_shape : forall o alpha omit ts, pipeline o alpha omit ts = Ser o (fed alpha omit ts).
+Proof. exact pipeline_is_ser_of_fed. Qed.
+Theorem c07_filter_order :
+  map snd filter_stack =
+  [[105;110;106;101;99;116;95;109;101;116;97;95;99;104;97;114;115;101;116];
+   [97;108;112;104;97;98;101;116;105;99;97;108;97;116;116;114;105;98;117;116;101;115];
+   [119;104;105;116;101;115;112;97;99;101];
+   [115;97;110;105;116;105;122;101;114];
+   [111;112;116;105;111;110;97;108;116;97;103;115]].
+Proof. exact stack_order. Qed.
+
+(* OMISSION only ever removes tokens (for every stream and every option set nothing is added, altered or
+   reordered), every removed token is an attribute-less start tag or an end tag of the elements whose tags are
+   optional, and it is removed only where the HTML syntax allows the omission (C13's theorems) *)
+Theorem c07_omission_only_removes : forall alpha omit ts,
+  Subseq (fed alpha omit ts) (if alpha then AA ts else ts).
+Proof. exact fed_subseq. Qed.
+
+(* SORTING keeps every attribute with its value: the attribute map the reader rebuilds is the same *)
+Theorem c07_sorting_keeps_attribute_map : forall a, NoDup (map fst a) -> Permutation (aa_attrs a) a.
+Proof. exact aa_attrs_permutation. Qed.
+
+(* QUOTING MODE, QUOTE CHARACTER, escape_lt_in_attrs are invisible to the reader: for every value, with either
+   quote character and either setting of escape_lt, the quoted form is read back as the same value *)
+Theorem c07_quoting_options_invisible : forall lt v rest e n a0 an av sc tm o cd b,
+  (exists j, sp_iter j (mk_tk attributeValueDoubleQuotedState (flat_map (escq 34 lt) v ++ 34 :: rest)
+                              (CTag e n (a0 ++ [(an, av)]) sc) tm o cd b)
+             = Some (mk_tk afterAttributeValueState rest (CTag e n (a0 ++ [(an, av ++ map nulfix v)]) sc) tm o cd b)) /\
+  (exists j, sp_iter j (mk_tk attributeValueSingleQuotedState (flat_map (escq 39 lt) v ++ 39 :: rest)
+                              (CTag e n (a0 ++ [(an, av)]) sc) tm o cd b)
+             = Some (mk_tk afterAttributeValueState rest (CTag e n (a0 ++ [(an, av ++ map nulfix v)]) sc) tm o cd b)).
+Proof. exact quoting_invisible. Qed.
+
+(* PARTIAL.  The tree-construction half of the round trip ("the omitted tags are re-implied by the parser, the
+   text lands in the same place") is not a theorem: it is decided on every run by generating conforming trees
+   from a content-model grammar, serializing them under random option sets with both walkers and parsing the
+   result again; three listed findings (leading newline in pre/textarea, boolean attribute values, xlink). *)
